@@ -824,8 +824,9 @@ Proof.
   assert (E : recs (run s0 w_unique) = [mkRec 1 0 "twitter" "same" 100 []; mkRec 2 1 "twitter" "same" 100 []]%string)
     by (vm_compute; reflexivity).
   specialize (U (mkRec 1 0 "twitter" "same" 100 []) (mkRec 2 1 "twitter" "same" 100 [])%string).
-  rewrite E in U. simpl in U.
-  assert (H : 0 = 1); [|discriminate]. apply U; auto; vm_compute; reflexivity.
+  rewrite E in U.
+  assert (H : 0 = 1); [|discriminate].
+  apply U; [left; reflexivity|right; left; reflexivity|reflexivity|reflexivity|vm_compute; reflexivity].
 Qed.
 
 (* witness 2: after a rotation 0 -> 4 the old address still edits the moved record
@@ -834,7 +835,8 @@ Definition w_rot : list op := [ORegister 100 0 [("twitter", "t0")]; ORotate 0 4 
 Definition w_rot_op : op := ORegister 101 0 [("twitter", "stolen")]%string.
 Lemma owner_refuted : exists s', step (run s0 w_rot) w_rot_op = Ok s' /\ ~ owner_frame (run s0 w_rot) w_rot_op s'.
 Proof.
-  destruct (step (run s0 w_rot) w_rot_op) as [s'| |] eqn:E; try (vm_compute in E; discriminate).
+  assert (K : is_ok (step (run s0 w_rot) w_rot_op) = true) by (vm_compute; reflexivity).
+  destruct (step (run s0 w_rot) w_rot_op) as [s'| |] eqn:E; try (simpl in K; discriminate K). clear K.
   exists s'. split; auto. intros [F _].
   assert (E1 : recs (run s0 w_rot) = [mkRec 1 4 "twitter" "t0" 100 []]%string) by (vm_compute; reflexivity).
   assert (E2 : recs s' = [mkRec 1 0 "twitter" "stolen" 101 []]%string).
@@ -857,7 +859,8 @@ Definition w_rot2 : list op := w_rot ++ [ORequest 0 2 [1] "ukex" 0]%string.
 Definition w_rot2_op : op := ORegister 102 4 [("twitter", "t1")]%string.
 Lemma editdrop_refuted : exists s', step (run s0 w_rot2) w_rot2_op = Ok s' /\ ~ edit_drops (run s0 w_rot2) 4 s'.
 Proof.
-  destruct (step (run s0 w_rot2) w_rot2_op) as [s'| |] eqn:E; try (vm_compute in E; discriminate).
+  assert (K : is_ok (step (run s0 w_rot2) w_rot2_op) = true) by (vm_compute; reflexivity).
+  destruct (step (run s0 w_rot2) w_rot2_op) as [s'| |] eqn:E; try (simpl in K; discriminate K). clear K.
   exists s'. split; auto. intros F.
   assert (E1 : recs (run s0 w_rot2) = [mkRec 1 4 "twitter" "t0" 100 []]%string) by (vm_compute; reflexivity).
   assert (E2 : recs s' = [mkRec 1 4 "twitter" "t1" 102 []]%string /\ reqs s' = [mkReq 1 0 2 [1] "ukex" 0 100]%string).
